@@ -50,7 +50,7 @@ def build_driver(driver):
     with open(os.path.join(vlib.BUILD, "build.lock"), "w") as lk:
         fcntl.flock(lk, fcntl.LOCK_EX)
         stamp = out + ".hash"
-        th = vlib.tree_hash()
+        th = vlib.tree_hash(driver)
         if os.path.exists(out) and os.path.exists(stamp) and open(stamp).read() == th:
             return out
         src, dst = os.path.join(vlib.REPO, "go.sum"), os.path.join(vlib.HARNESS, "go.sum")
@@ -67,7 +67,7 @@ def build_driver(driver):
 def run_driver(d, tier, only=0):
     import fcntl
     exe = build_driver(d["driver"])
-    key = "%s-fn-%s-%s-s%d" % (vlib.tree_hash(), d["name"], tier, vlib.seed())
+    key = "%s-fn-%s-%s-s%d" % (vlib.tree_hash(d["driver"]), d["name"], tier, vlib.seed())
     os.makedirs(os.path.join(vlib.BUILD, "cache"), exist_ok=True)
     cdir = os.path.join(vlib.BUILD, "cache", key)
     prefix = os.path.join(cdir, "x")
@@ -144,7 +144,7 @@ def model_check(d, tier):
     out = []
     for mc in d.get("mc", []):
         cfg = mc["cfg"] if tier == "quick" or "cfg_thorough" not in mc else mc["cfg_thorough"]
-        key = os.path.join(vlib.BUILD, "cache", "%s-mc-%s-%s.json" % (vlib.tree_hash(), mc["module"], cfg))
+        key = os.path.join(vlib.BUILD, "cache", "%s-mc-%s-%s.json" % (vlib.tree_hash(d["driver"]), mc["module"], cfg))
         if os.path.exists(key):
             out.append(json.load(open(key)))
             continue
